@@ -116,6 +116,9 @@ type pathState struct {
 	lazyDefs     []*smt.Term // exact definitions of abstracted operations
 	lazyDone     int
 	fbits        map[*smt.Term]*smt.Term
+	realDigits   bool
+	csvRecords   [][]value
+	csvModel     bool
 	hashBits     int
 	hashAllowed  []uint64
 }
